@@ -7,6 +7,7 @@ import CookModel.Lemmas.BuilderBridge
 import CookModel.Lemmas.BestUnit
 import CookModel.Lemmas.BestUnitBuilt
 import CookModel.Lemmas.FitFractionChoice
+import CookModel.Lemmas.FitChoice
 /-
   C09  Unit conversion preserves the physical amount.
 
@@ -763,5 +764,46 @@ example : (fit (Converter.bundled Rat) ⟨.number (.regular 10), some ['t','s','
 /-- the unit text is the first SYMBOL even if the quantity was written with a name: `1500 milliliters` → `1.5 l` -/
 example : (fit (Converter.bundled Rat) ⟨.number (.regular 1500), some "milliliters".toList⟩).1 =
     ⟨.number (.regular (3/2)), some ['l']⟩ := by decide +kernel
+
+/-! ### `fit` when fractions are disabled on its way (Lemmas/FitChoice.lean)
+
+  `FractionsOffFor c u s`: fractions are disabled for `u` and for every unit of the best list of `u`'s quantity for system
+  `s` (the shipped configuration of every metric unit).  `Converter.SystemsCoherent`: a listed unit's own system's list
+  (the default system's for a unit of none) is the list it is listed in. -/
+
+/-- With fractions disabled on its way a successful `fit` IS `Converter::convert(.., SameSystem)`: the unit is
+    `best_unit`'s choice (`C09_best_unit_rule`), the numbers are the converted plain numbers, the unit text is the
+    chosen unit's symbol. -/
+theorem C09_fit_without_fractions {c : Converter Rat} (hc : c.Sound) (q q' : SQuantity Rat) (u : Unit Rat)
+    (hu : unitInfo c q = some u) (hoff : FractionsOffFor c u (u.system.getD c.defaultSystem))
+    (h : fit c q = (q', .ok ())) :
+    ∃ value v' b, ConvertValue.ofValue q.value = .ok value ∧
+      c.convert value (.unit u) .sameSystem = .ok (v', b) ∧ q' = ⟨v'.toValue, b.symbol?⟩ := by
+  obtain ⟨value, v', b, h1, h2, h3⟩ := fc_fit_off_inv hc q q' u hu hoff h
+  exact ⟨value, v', b, h1, bu_convert_of (to := .sameSystem) rfl h2, h3⟩
+
+/-- **`fit` is idempotent over ℚ**: fitting an already fitted quantity chooses the same unit and returns the quantity
+    unchanged (fractions disabled on the way; non-negative leading numbers — the choice is made on absolute values,
+    which matters only for negative temperatures). -/
+theorem C09_fit_idempotent {c : Converter Rat} (hc : c.Sound) (hcoh : c.SystemsCoherent) (q q' : SQuantity Rat)
+    (u : Unit Rat) (hu : unitInfo c q = some u) (hoff : FractionsOffFor c u (u.system.getD c.defaultSystem))
+    (h : fit c q = (q', .ok ())) (h0 : ∀ x ∈ q.value.parts.head?, 0 ≤ x) (h0' : ∀ x ∈ q'.value.parts.head?, 0 ≤ x) :
+    fit c q' = (q', .ok ()) :=
+  fc_fit_idempotent hc hcoh q q' u hu hoff h h0 h0'
+
+/-- the lists of the shipped converter are not mixed across systems (decided on the generated table) -/
+theorem C09_bundled_systems_coherent : (Converter.bundled Rat).SystemsCoherent :=
+  fc_systemsCoherentB (by decide +kernel)
+
+/-- the hypotheses of `C09_fit_idempotent` on the shipped table: fractions are off for the millilitre and the metric
+    volume list; `1500 ml` is fitted to `1.5 l`, and `1.5 l` is fitted to itself -/
+example : ((Converter.bundled Rat).findUnit ['m','l']).map
+    (fun u => decide (FractionsOffFor (Converter.bundled Rat) u (u.system.getD (Converter.bundled Rat).defaultSystem)))
+    = some true := by decide +kernel
+example : (fit (Converter.bundled Rat) ⟨.number (.regular 1500), some ['m','l']⟩).1 =
+      ⟨.number (.regular (3/2)), some ['l']⟩ ∧
+    (fit (Converter.bundled Rat) ⟨.number (.regular 1500), some ['m','l']⟩).2.toOption = some () ∧
+    (fit (Converter.bundled Rat) ⟨.number (.regular (3/2)), some ['l']⟩).1 =
+      ⟨.number (.regular (3/2)), some ['l']⟩ := by decide +kernel
 
 end Cook
